@@ -1,10 +1,11 @@
 (* C18 - dictionary training yields a usable dictionary or an error, never a bad one.
-   Theorems about the executable models Train/CoverParams.v, Train/ZdictModel.v, Train/BestModel.v
+   Theorems about the executable models Train/CoverParams.v, Train/ZdictModel.v, Train/BestModel.v, Train/SegmentModel.v
    (proofs in Train/*Proofs.v).  The models are tied to /repo on every run by regenerated constants
    (Gen/Gen_Train.v) and by the correspondence run of zv/props/c18.py.                                    *)
 From Coq Require Import NArith ZArith List Bool Permutation.
 From ZV.Gen Require Import Gen_Train.
 From ZV.Train Require Import CoverParams ZdictModel BestModel CoverProofs ZdictProofs BestProofs.
+From ZV.Train Require Import SegmentModel SegmentProofs GroupModel GroupProofs.
 Import ListNotations.
 Local Open Scope N_scope.
 
@@ -226,3 +227,144 @@ Theorem live_zero_iff_all_done : forall cs b0 es s,
   (b_live (s_best s) = 0 <-> length (s_finished s) = length cs).
 Proof. exact BestProofs.live_zero_iff_all_done. Qed.
 Print Assumptions live_zero_iff_all_done.
+
+(* ======================================================================================================
+   round 2: segment selection and dictionary building (Train/SegmentModel.v), COVER_map_init, legacy hint loop
+   ====================================================================================================== *)
+
+(* ---- FASTCOVER_selectSegment: for every key map, frequency table, counter table and epoch [b, e):
+        the loops end inside their arrays (result Some), the segment is the untouched {0,0,0} or lies inside the epoch with
+        a non-zero score and fewer than dmersInK+1 d-mers, the frequencies of exactly its keys are zeroed, and the U16
+        scratch table segmentFreqs is all-zero again on exit when it was on entry - also when a counter wrapped *)
+Theorem fast_select_segment : forall key dk1 fr cnt0 b e,
+  b <= e ->
+  exists r c',
+    select U16MOD key dk1 false fr cnt0 b e = Some (r, zero_range key (N.to_nat (se r - sb r)) (sb r) fr, c') /\
+    seg_inside dk1 b e r /\
+    ((forall i, cnt0 i = 0) -> forall i, c' i = 0).
+Proof. exact (fun key dk1 => select_fast U16MOD key dk1 eq_refl). Qed.
+Print Assumptions fast_select_segment.
+
+(* ---- COVER_selectSegment (epoch shorter than the 2^32 range of the per-dmer counter, which ctx_init guarantees):
+        as above, and the trimmed segment is non-empty with non-zero frequencies at both ends whenever the score is
+        non-zero - so the final "for (pos = begin; pos != end; ++pos)" loops never start with begin > end *)
+Theorem cover_select_segment : forall key dk1 fr cnt0 b e,
+  b <= e -> e - b < U32MOD ->
+  exists r c',
+    select U32MOD key dk1 true fr cnt0 b e = Some (r, zero_range key (N.to_nat (se r - sb r)) (sb r) fr, c') /\
+    seg_inside dk1 b e r /\
+    (ss r <> 0 -> sb r < se r /\ fr (key (sb r)) <> 0 /\ fr (key (se r - 1)) <> 0).
+Proof. exact (fun key dk1 => select_cover U32MOD key dk1 eq_refl). Qed.
+Print Assumptions cover_select_segment.
+
+Theorem select_zeroes_segment : forall key n pos fr,
+  (forall j, (j < n)%nat -> zero_range key n pos fr (key (pos + N.of_nat j)) = 0) /\
+  (forall i, (forall j, (j < n)%nat -> key (pos + N.of_nat j) <> i) -> zero_range key n pos fr i = fr i).
+Proof. exact SegmentProofs.select_zeroes_segment. Qed.
+Print Assumptions select_zeroes_segment.
+
+(* ---- index-level memory safety of the reads of selectSegment: the result is a function of the key map restricted to
+        the epoch (dmerAt[pos] / hash(samples + pos) are read for b <= pos < e only) *)
+Theorem select_reads_inside_epoch : forall cm key1 key2 dk1 fr1 fr2 b e cover cnt1 cnt2,
+  1 < cm -> feq fr1 fr2 -> (forall p, b <= p < e -> key1 p = key2 p) -> b <= e -> feq cnt1 cnt2 ->
+  sel_eq (select cm key1 dk1 cover fr1 cnt1 b e) (select cm key2 dk1 cover fr2 cnt2 b e).
+Proof. exact (fun cm key1 key2 dk1 fr1 fr2 b e cover cnt1 cnt2 H1 H2 H3 => SegmentProofs.select_reads_inside_epoch cm key1 key2 dk1 fr1 fr2 b e H1 H2 H3 cover cnt1 cnt2). Qed.
+Print Assumptions select_reads_inside_epoch.
+
+(* ---- FASTCOVER: hash index inside the 2^f tables; computeFrequency depends on the bytes of the training samples only *)
+Theorem fc_hash_in_table : forall d f u, f <= 64 -> fc_hash d f u < 2 ^ f.
+Proof. exact SegmentProofs.fc_hash_in_table. Qed.
+Print Assumptions fc_hash_in_table.
+
+Theorem fc_freqs_reads_inside : forall s1 s2 d f skip trainSizes,
+  (forall q, q < sumN trainSizes -> byte_at s1 q = byte_at s2 q) ->
+  feq (fc_freqs (fc_key s1 d f) d skip trainSizes) (fc_freqs (fc_key s2 d f) d skip trainSizes).
+Proof. exact SegmentProofs.fc_freqs_reads_inside. Qed.
+Print Assumptions fc_freqs_reads_inside.
+
+(* ---- COVER_computeEpochs for EVERY U32 k >= 1: the side condition (k*10) mod 2^32 >= 1 of epochs_positive is not needed
+        (k = 2^31 is the only exception to it, and then the first branch is taken with one epoch)
+   ---- COVER_buildDictionary / FASTCOVER_buildDictionary after a successful (repaired) ctx_init, for every capacity, U32 k, d,
+        key map and frequency table: no division by zero, selectSegment never runs off, the loop ENDS (the model's fuel
+        (capacity/d + 1) * maxZeroScoreRun is never exhausted), and the memcpy's tile [tail, capacity) downwards, each at
+        least d bytes long and reading inside the training part of the samples buffer *)
+Theorem epochs_total : forall maxDict nbDmers k passes,
+  1 <= k -> k < U32MOD -> maxDict < U32MOD -> 1 <= passes -> 1 <= nbDmers ->
+  exists num size, compute_epochs maxDict nbDmers k passes = Some (num, size) /\
+                   1 <= num /\ 1 <= size /\ num * size <= nbDmers.
+Proof. exact SegmentProofs.epochs_total. Qed.
+Print Assumptions epochs_total.
+
+Theorem build_dictionary_safe : forall cover maxSamples sizes d sp c capacity k key fr,
+  maxSamples <= U32MOD ->
+  ctx_init true maxSamples sizes d sp = Some c ->
+  1 <= d -> 1 <= k -> k < U32MOD ->
+  exists tail copies,
+    build_dictionary cover key fr capacity (ci_nbDmers c) d k = Some (BuildDone tail copies) /\
+    tail <= capacity /\ tiles d capacity (ci_trainSize c) copies tail.
+Proof. exact SegmentProofs.build_dictionary_total. Qed.
+Print Assumptions build_dictionary_safe.
+
+(* the hypotheses are satisfiable: a whole FASTCOVER run of the model (6 samples of 10 bytes, d = 6, f = 4, k = 8, capacity 24)
+   and a COVER build from a given dmerAt[] / freqs[] *)
+Definition ex_bytes : list N :=
+  flat_map (fun i => [97 + i mod 3; 98; 99 + i mod 2; 100; 101; 97; 98 + i mod 4; 99; 100; 101]) [0; 1; 2; 3; 4; 5].
+Example fc_train_example :
+  exists fr, fc_train ex_bytes [10; 10; 10; 10; 10; 10] 6 4 1 8 24 = TOk 53 fr (BuildDone 0 [(0, 8, 8); (8, 11, 8); (16, 1, 8)]).
+Proof. eexists. vm_compute. reflexivity. Qed.
+Example cv_build_example :
+  cv_build [0; 1; 2; 0; 1; 2; 3; 4; 0; 1] [3; 3; 3; 3; 3; 3; 1; 1; 3; 3] 2 4 12 = Some (BuildDone 5 [(5, 6, 3); (8, 0, 4)]).
+Proof. vm_compute. reflexivity. Qed.
+
+(* ---- COVER_map_init (repaired, 62c5591): accepted sizes give a table of 2^sizeLog <= 2^31 slots, at least twice the
+        k-d+2 keys selectSegment can hold at once, COVER_map_hash stays inside it; sizes >= 2^30 are refused; the pinned
+        code computed sizeLog = 32, the width of the shifted U32 *)
+Theorem map_init_ok : forall size sl,
+  1 <= size -> map_init true size = Some sl ->
+  size < 2 ^ 30 /\ 2 <= sl <= 31 /\ 2 * (size + 1) <= 2 ^ sl /\ 2 ^ sl < U32MOD /\ forall key, map_hash sl key < 2 ^ sl.
+Proof. exact SegmentProofs.map_init_ok. Qed.
+Print Assumptions map_init_ok.
+Theorem map_init_refuses : forall size, 2 ^ 30 <= size -> map_init true size = None.
+Proof. exact SegmentProofs.map_init_refuses. Qed.
+Print Assumptions map_init_refuses.
+Theorem map_init_pinned_refuted : map_init false (2 ^ 30) = Some 32 /\ map_init false (2 ^ 31) = Some 33.
+Proof. exact SegmentProofs.map_init_pinned_refuted. Qed.
+Print Assumptions map_init_pinned_refuted.
+
+(* ---- selectivity hint of the legacy trainer (repaired, 9804e77): for every selectivity level and nbSamples > MINRATIO the
+        loop ends and every shift count is below 32; the pinned code shifted by 32 for selectivity 33 *)
+Theorem hint_shift_ok : forall selectivity nbSamples,
+  1 <= selectivity -> 4 < nbSamples ->
+  exists l, hint_loop 33 nbSamples (hint_start true selectivity) = Some l /\ Forall (fun q => q < 32) l.
+Proof. exact SegmentProofs.hint_shift_ok. Qed.
+Print Assumptions hint_shift_ok.
+Theorem hint_shift_pinned_refuted : exists l, hint_loop 40 64 (hint_start false 33) = Some l /\ In 32 l.
+Proof. exact SegmentProofs.hint_shift_pinned_refuted. Qed.
+Print Assumptions hint_shift_pinned_refuted.
+
+(* ---- COVER_ctx_init frequency computation (Train/GroupModel.v): COVER_lower_bound returns a pointer in [first, last];
+        COVER_group never asks it for a negative range (it cannot run off ctx->offsets), for every group of positions below
+        the total size, and the frequency it stores is between 1 and the size of the group *)
+Theorem lower_bound_range : forall fuel offs first count v,
+  first <= lower_bound fuel offs first count v <= first + count.
+Proof. exact GroupProofs.lower_bound_range. Qed.
+Print Assumptions lower_bound_range.
+
+Theorem group_freq_ok : forall offs nb total ps,
+  off_at offs nb = total -> off_at offs 0 = 0 -> ps <> [] -> (forall p, In p ps -> p < total) ->
+  exists f, group_freq offs nb ps = Some f /\ 1 <= f <= N.of_nat (length ps).
+Proof. exact (fun offs nb total ps H => GroupProofs.group_freq_ok offs nb total H ps). Qed.
+Print Assumptions group_freq_ok.
+
+(* the whole frequency table of COVER_ctx_init (repaired), from the bytes of any sample set *)
+Theorem cv_ctx_freqs_ok : forall bytes sizes d keys fvals,
+  cv_ctx bytes sizes d = Some (keys, fvals) ->
+  length fvals = length keys /\
+  forall fv, In fv fvals -> exists f, fv = Some f /\ 1 <= f <= N.of_nat (length keys).
+Proof. exact GroupProofs.cv_ctx_freqs_ok. Qed.
+Print Assumptions cv_ctx_freqs_ok.
+
+Example cv_ctx_example :
+  exists keys, cv_ctx [97; 98; 97; 98; 97; 98; 97; 98; 97; 98; 97; 98] [2; 2; 2; 2; 2; 2] 2 =
+               Some (keys, [Some 3; Some 2; Some 3; Some 2; Some 3]).
+Proof. eexists. vm_compute. reflexivity. Qed.
